@@ -835,12 +835,25 @@ def fit_call(sess, op, step, out, stats, log):
     start = np.array(op["start"], float)
     lb = np.array(op["lb"], float)
     ub = np.array(op["ub"], float)
+    how = op.get("bounds_as", "array")
+
+    def arg(v):
+        # the same numbers in the container / number types a caller may use
+        if how == "list":
+            return [float(x_) for x_ in v]
+        if how == "tuple":
+            return tuple(float(x_) for x_ in v)
+        if how == "int_where_whole":
+            if all(float(x_) == int(x_) for x_ in v):
+                return np.array([int(x_) for x_ in v], dtype=int)       # e.g. lb = [0, 0]
+            return [int(x_) if float(x_) == int(x_) else float(x_) for x_ in v]
+        return np.array(v, float)
     try:
         c0 = float(obj.cost(start.copy()))
         if op.get("plain_output"):
-            xhat = np.asarray(obj.fit(start.copy(), lb=lb.copy(), ub=ub.copy()), float)
+            xhat = np.asarray(obj.fit(start.copy(), lb=arg(lb), ub=arg(ub)), float)
         else:
-            xhat, info = obj.fit(start.copy(), lb=lb.copy(), ub=ub.copy(), full_output=True)
+            xhat, info = obj.fit(start.copy(), lb=arg(lb), ub=arg(ub), full_output=True)
             xhat = np.asarray(xhat, float)
             try:
                 if not bool(info["success"]):
